@@ -126,7 +126,11 @@ def beh_to_scenario(sid, beh):
                 gated.append(c + "/" + t)
             steps.append({"a": "SendBegin", "c": c, "t": t})
         elif name == "SendEnd":
-            steps.append({"a": "SendEnd", "c": a[0], "t": a[1]})
+            step = {"a": "SendEnd", "c": a[0], "t": a[1]}
+            h = st["held"][pk(a[0], a[1])]
+            if isinstance(h, dict) and h.get("tok") and st["pc"][pk(a[0], a[1])] == "waiting":
+                step["tok"] = h["tok"]   # this reply is handed over now: its ProcessResponse returns
+            steps.append(step)
         elif name == "PRecv":
             tok = [a[0], a[1], int(a[2])]
             ret = True
@@ -233,30 +237,38 @@ def run(ctx):
     Q2 = '{[c \\in Cmds |-> IF c = "c1" THEN "q1" ELSE "q2"]}'
     ORD = '{<<"c1", "c2">>}'
     preds = []
-    runs = [("1cmd x 3 targets, all behaviours", ["c1"], ["t1", "t2", "t3"], ["q1"], MODEL_BEHS, T3, Q1, "{}")]
+    Q_BEHS = ["ok", "sendfail", "silent", "dup", "foreign", "wrongsender", "crossid", "failreply"]
+    X_BEHS = ["ok", "silent", "dup", "crossid"]
     if quick:
-        runs.append(("2 cmds x 2 targets, one queue, cross-command behaviours", ["c1", "c2"], ["t1", "t2"], ["q1"], CROSS_BEHS, T2, Q1, ORD))
+        runs = [("1 cmd x 3 targets, 8 behaviours", ["c1"], ["t1", "t2", "t3"], ["q1"], Q_BEHS, T3, Q1, "{}"),
+                ("1 cmd x 2 targets, all behaviours", ["c1"], ["t1", "t2"], ["q1"], MODEL_BEHS, T2, Q1, "{}"),
+                ("2 cmds x 2 targets, one queue, cross-command behaviours", ["c1", "c2"], ["t1", "t2"], ["q1"], X_BEHS, T2, Q1, ORD)]
     else:
-        runs.append(("2 cmds x 2 targets, one queue, all behaviours", ["c1", "c2"], ["t1", "t2"], ["q1"], MODEL_BEHS, T2, Q1, ORD))
-        runs.append(("2 cmds x 2 targets, two queues (concurrent), cross-command behaviours", ["c1", "c2"], ["t1", "t2"], ["q1", "q2"],
-                     ["ok", "silent", "dup", "crossid"], T2, Q2, ORD))
-        runs.append(("all shapes of 2 cmds over <=2 targets incl. none, both queue maps, Enqueue at any time",
-                     ["c1", "c2"], ["t1", "t2"], ["q1", "q2"], ["ok", "silent", "sendfail"],
-                     "[Cmds -> SUBSET Targets]", "[Cmds -> Queues]", "{}"))
+        runs = [("1 cmd x 3 targets, all behaviours", ["c1"], ["t1", "t2", "t3"], ["q1"], MODEL_BEHS, T3, Q1, "{}"),
+                ("2 cmds x 2 targets, one queue, all behaviours", ["c1", "c2"], ["t1", "t2"], ["q1"], MODEL_BEHS, T2, Q1, ORD),
+                ("2 cmds x 2 targets, two queues (concurrent commands), cross-command behaviours", ["c1", "c2"], ["t1", "t2"],
+                 ["q1", "q2"], X_BEHS, T2, Q2, ORD),
+                ("all shapes of 2 cmds over <=2 targets incl. none, both queue maps, Enqueue at any time",
+                 ["c1", "c2"], ["t1", "t2"], ["q1", "q2"], ["ok", "silent", "sendfail"],
+                 "[Cmds -> SUBSET Targets]", "[Cmds -> Queues]", "{}")]
     for (label, cmds, tgs, qs, behs, sh, qm, enq) in runs:
         r = model(ctx, label, cmds, tgs, qs, behs, sh, qm, enq, workers=workers)
         if r.violated or r.deadlock:
             preds.append((label, r))
     # liveness half of "exactly once" (fair implementation + time): small configuration
-    r = model(ctx, "liveness: 1 cmd x 2 targets", ["c1"], ["t1", "t2"], ["q1"], MODEL_BEHS, T2, Q1, "{}", live=True, workers=workers)
+    r = model(ctx, "liveness: 1 cmd x 2 targets", ["c1"], ["t1", "t2"], ["q1"], MODEL_BEHS if not quick else X_BEHS + ["sendfail"],
+              T2, Q1, "{}", live=True, workers=workers)
     if r.violated:
         preds.append(("liveness", r))
     # the invariants have teeth: broken variants of the code are rejected by the model
-    for mut, expect in (("idonly", "NoCrossTalk"), ("tgtonly", "NoCrossTalk"), ("nounreg", "PendingAwaits")):
+    muts = (("idonly", "NoCrossTalk"), ("tgtonly", "NoCrossTalk"), ("nounreg", "PendingAwaits"))
+    for mut, expect in (muts[:1] if quick else muts):
         r = model(ctx, "mutant %s (must be rejected)" % mut, ["c1", "c2"], ["t1", "t2"], ["q1"], CROSS_BEHS, T2, Q1, ORD, mutant=mut,
-                  workers=4)
+                  workers=2)
         if not r.violated:
             raise vlib.Inconclusive("model sanity: mutant %s is not rejected by the invariants" % mut)
+        ctx.states -= r.distinct          # (not part of the explored state space of the code as it is)
+        ctx.transitions -= r.generated
     if preds:
         # the model of the code as it is violates a property: no such finding is known; the scenarios below
         # replay generated behaviours on the real code, but a model counterexample that the monitor does not
@@ -304,6 +316,8 @@ def run(ctx):
         for i in range(nfree):
             sid += 1
             scenarios.append(free_scenario(sid, rng, tab))
+    if ctx.replay:
+        scenarios[0]["id"] = 1
     nsched = sum(1 for s in scenarios if s["mode"] == "sched")
     ctx.log("scenarios: %d scheduled (distinct), %d free" % (nsched, len(scenarios) - nsched))
 
@@ -337,6 +351,7 @@ def run(ctx):
 
     # ------------------------------------------------------------------ 4. trace validation by TLC
     viol, drift, tr = ctx.validate("CmdServentTrace", None, trace_file, cfg_text=cfg_trace(), timeout=1500)
+    ctx.log("trace validation: %d lines, %d VIOL, %d DRIFT (%.1fs)" % (len(lines), len(viol), len(drift), tr.wall))
     ctx.traces = len(scenarios)
     ctx.exhaustive = False
     ctx.extra["trace_lines"] = len(lines)
